@@ -13,6 +13,7 @@ CONSTANTS
   DPM = 2
   Backends <- FileOnly
   Faults <- BothFaults
+  StoreOnce = FALSE
   Ops <- AllOps
   Mismatch = FALSE
   NameFilterSound = FALSE
